@@ -130,8 +130,17 @@ void Db_deleteColumnByUID(DbH db, int iuid)
   if (db == 1) { __CPROVER_assert(0 <= DBIN.ndeleted && DBIN.ndeleted < DMAX, "ghost log capacity"); DBIN.deleted[DBIN.ndeleted] = iuid; DBIN.ndeleted = DBIN.ndeleted + 1; }
   else { __CPROVER_assert(0 <= DBOUT.ndeleted && DBOUT.ndeleted < DMAX, "ghost log capacity"); DBOUT.deleted[DBOUT.ndeleted] = iuid; DBOUT.ndeleted = DBOUT.ndeleted + 1; }
 }
+/* the other members of the Db deletion family, as a calculator may call them: deletion *by identifier* is logged per identifier,
+   deletion by column index / by name designates columns differently and is logged apart (it does not discharge the obligation
+   'the registered identifiers are deleted') */
+void Db_deleteColumnsByUID(DbH db, ivec iuids)
+{
+%s}
+unsigned g_deleted_by_colidx_in, g_deleted_by_colidx_out;
+void Db_deleteColumnByColIdx(DbH db, int icol) { if (db == 1) g_deleted_by_colidx_in++; else g_deleted_by_colidx_out++; }
+void Db_deleteColumnsByColIdx(DbH db, ivec icols) { if (db == 1) g_deleted_by_colidx_in++; else g_deleted_by_colidx_out++; }
 DbH _whichDb(int whichDb) { return whichDb == 1 ? _dbin : _dbout; }
-"""
+""" % "".join("  if (%d < iuids.n) Db_deleteColumnByUID(db, iuids.a[%d]);\n" % (k, k) for k in range(LMAX))
 D2D_INPUTS = [("ivec", L) for L in LISTS] + [("Db", "DBIN"), ("Db", "DBOUT")]
 WFL = "__CPROVER_requires(%s && 0 <= DBIN.ndeleted && 0 <= DBOUT.ndeleted)" % " && ".join("0 <= %s.n && %s.n <= LMAX" % (L, L) for L in LISTS)
 
@@ -269,7 +278,7 @@ def clean_contract():
                    % (c, Li, Lo, logged("DBIN", Li, "__CPROVER_old"), logged("DBOUT", Lo, "__CPROVER_old"), unchanged(Ki), unchanged(Ko)))
     ens.append("__CPROVER_ensures(%s && %s)" % (prefix_kept("DBIN", "__CPROVER_old"), prefix_kept("DBOUT", "__CPROVER_old")))
     return "\n".join([WFL, "__CPROVER_requires(DBIN.ndeleted <= DMAX - LMAX && DBOUT.ndeleted <= DMAX - LMAX)",
-                      "__CPROVER_assigns(L_PermIn, L_TempIn, L_PermOut, L_TempOut, DBIN, DBOUT)"] + ens)
+                      "__CPROVER_assigns(L_PermIn, L_TempIn, L_PermOut, L_TempOut, DBIN, DBOUT, g_deleted_by_colidx_in, g_deleted_by_colidx_out)"] + ens)
 
 
 def clean_fn(with_loops=True):
@@ -283,11 +292,12 @@ def clean_fn(with_loops=True):
                                   "__CPROVER_loop_invariant(%s)" % prefix_kept(db, "__CPROVER_loop_entry"),
                                   "__CPROVER_decreases(%s.n - i)" % L])
     return Fn("ACalcDbToDb::_cleanVariableDb", D2D, CLEAN_SIG, csig="void _cleanVariableDb(int status)", contract=clean_contract(), loops=loops,
-              rewrites=[(r"!(_listVariable\w+)\.empty\(\)", r"(\1.n != 0)", 4),
-                        (r"\(int\) (_listVariable\w+)\.size\(\)", r"\1.n", 4),
-                        (r"(_dbin|_dbout)->deleteColumnByUID\(", r"Db_deleteColumnByUID(\1, ", 4),
-                        (r"(_listVariable\w+)\[i\]", r"\1.a[i]", 4),
-                        (r"(_listVariable\w+)\.clear\(\)", r"ivec_clear(&\1)", 4)])
+              nloops=4,
+              rewrites=[(r"!(_listVariable\w+)\.empty\(\)", r"(\1.n != 0)", "opt"),
+                        (r"\(int\) (_listVariable\w+)\.size\(\)", r"\1.n", "opt"),
+                        (r"(_dbin|_dbout)->(\w+)\(", r"Db_\2(\1, ", None),
+                        (r"(_listVariable\w+)\[(\w+)\]", r"\1.a[\2]", "opt"),
+                        (r"(_listVariable\w+)\.clear\(\)", r"ivec_clear(&\1)", None)])
 
 
 def unit_clean():
@@ -299,7 +309,7 @@ void vf_harness(void)
   VF_REACH();
 }
 """
-    return Unit("C19.cleanVariableDb", [clean_fn()], prelude=D2D_PRE, harness=h, pre_inputs=PRE_IN,
+    return Unit("C19.cleanVariableDb", [clean_fn()], prelude=D2D_PRE, harness=h, pre_inputs=PRE_IN, fallback_unwind=LMAX + 2,
                 inputs=D2D_INPUTS + [("int", "W_status")], enforce="_cleanVariableDb",
                 claim=("ACalcDbToDb::_cleanVariableDb(status) deletes, from the right Db, exactly the identifiers registered with that status, in "
                        "order, empties those two lists and leaves the two lists of the other status untouched (four loops closed by invariants)"),
